@@ -94,7 +94,11 @@ Definition J (s : xst) : Prop :=
   (in_batch (sp E) = false -> sp E <> SpDead -> batch E = []) /\
   nreq (msgs (written E)) = nreq (qtr E) + recv B + sa (cur E) /\
   RI B /\ replied B <= nreq (msgs (wire E)) /\
-  nreq (sq E) + nreq (msgs (written E)) = sent B.
+  nreq (sq E) + nreq (msgs (written E)) = sent B /\
+  (* sendInFlight covers the whole batch phase, so "drained" is only ever observed after the
+     segment hand-off (fix a8c9a5c) *)
+  (in_batch (sp E) = true -> infl E = true) /\
+  drain_clean (k s) = true.
 
 Lemma J_init p bud : J (xinit p bud).
 Proof.
@@ -105,7 +109,7 @@ Lemma written_wire_le E : nreq (msgs (wire E)) <= nreq (msgs (written E)).
 Proof. unfold written. rewrite msgs_app, nreq_app. lia. Qed.
 
 Ltac xsimp := unfold written in *;
-  cbn [b e k budget sq qtr cur tok sp batch wire dropped mk push_sq set_sp set_tp
+  cbn [b e k budget sq qtr cur tok sp batch wire dropped infl mk push_sq set_sp set_tp
        tp sbusy closed pstop sldead rdead timedout gaveup enq_clean drain_clean] in *.
 Lemma msgs_one m (a : bool) : msgs [(m, a)] = [m].
 Proof. reflexivity. Qed.
@@ -116,8 +120,8 @@ Ltac ncount := rewrite ?msgs_app, ?msgs_one, ?msgs_nil, ?nreq_app, ?nreq_cons, ?
 
 Lemma J_step s l s' : J s -> xstep limit s l = Some s' -> J s'.
 Proof.
-  intros (J1 & J2 & J3 & J4 & J5 & J6 & J7 & J8) Hs.
-  destruct s as [B bud [sq0 qtr0 cur0 tok0 sp0 batch0 wire0 dropped0] K].
+  intros (J1 & J2 & J3 & J4 & J5 & J6 & J7 & J8 & J9 & J10) Hs.
+  destruct s as [B bud [sq0 qtr0 cur0 tok0 sp0 batch0 wire0 dropped0 infl0] K].
   xsimp.
   assert (FIN : forall P : Prop, P -> P) by auto.
   destruct l as [bl| | | | | | | | | | | | | | | | | | | | | |]; cbn in Hs;
@@ -136,7 +140,8 @@ Proof.
     try match goal with T : ?t = true, H : ?t = true -> _ |- _ => destruct (H T) as [X Y]; try discriminate X; try congruence end;
     try (apply J4; [assumption|discriminate]);
     try (intros T; specialize (J2 T); discriminate J2);
-    try tauto.
+    try tauto;
+    try (destruct (in_batch sp0); [specialize (J9 eq_refl); discriminate J9|reflexivity]).
 Qed.
 
 Lemma J_run ls : forall s s', J s -> xrun limit s ls = Some s' -> J s'.
@@ -210,8 +215,8 @@ Ltac t0 := repeat split; auto; try lia; try congruence; try discriminate;
 
 Lemma D_step s l s' : J s -> D s -> xstep limit s l = Some s' -> D s'.
 Proof.
-  intros (J1 & J2 & J3 & J4 & J5 & J6 & J7 & J8) (D1 & D2 & D3 & D4 & D5 & D6 & D7) Hs.
-  destruct s as [B bud [sq0 qtr0 cur0 tok0 sp0 batch0 wire0 dropped0]
+  intros (J1 & J2 & J3 & J4 & J5 & J6 & J7 & J8 & J9 & J10) (D1 & D2 & D3 & D4 & D5 & D6 & D7) Hs.
+  destruct s as [B bud [sq0 qtr0 cur0 tok0 sp0 batch0 wire0 dropped0 infl0]
                  [tp0 sbusy0 closed0 pstop0 sldead0 rdead0 timedout0 gaveup0 enq_clean0 drain_clean0]].
   unfold good in *. xsimp.
   destruct l as [bl| | | | | | | | | | | | | | | | | | | | | |]; cbn in Hs;
@@ -323,7 +328,7 @@ Qed.
 
 Lemma queue_bound s : 1 <= limit -> J s -> Q s -> before_enq (tp (k s)) = true -> length (sq (e s)) <= limit.
 Proof.
-  intros L1 (J1 & J2 & J3 & J4 & J5 & J6 & J7 & J8) (Q1 & Q2 & Q3 & Q4 & Q4b & Q5 & Q6 & Q7) BE.
+  intros L1 (J1 & J2 & J3 & J4 & J5 & J6 & J7 & J8 & J9 & J10) (Q1 & Q2 & Q3 & Q4 & Q4b & Q5 & Q6 & Q7) BE.
   assert (CF : closed (k s) = false) by (apply Q3; destruct (tp (k s)); try discriminate; reflexivity).
   destruct (Q1 CF) as (A & A2 & A3 & A4). specialize (Q2 BE).
   pose proof (nreq_len (sq (e s))) as NL. unfold Model.L in A4.
@@ -339,7 +344,7 @@ Proof.
   { intros CF. pose proof (closed_mono _ _ _ Hs CF) as CF0. specialize (Q1 CF0).
     destruct (xstep_proj _ _ _ Hs CF) as [E|(bl & _ & E)]; [rewrite E; exact Q1|].
     eapply inv_step; eauto. }
-  destruct s as [B bud [sq0 qtr0 cur0 tok0 sp0 batch0 wire0 dropped0]
+  destruct s as [B bud [sq0 qtr0 cur0 tok0 sp0 batch0 wire0 dropped0 infl0]
                  [tp0 sbusy0 closed0 pstop0 sldead0 rdead0 timedout0 gaveup0 enq_clean0 drain_clean0]].
   xsimp. clear Q1 HJ.
   destruct l as [bl| | | | | | | | | | | | | | | | | | | | | |]; cbn in Hs;
@@ -386,10 +391,10 @@ Proof.
   intros L1 L2 (HJ & HD & HQ) NT ST.
   pose proof (stuck_labels _ ST) as NE.
   pose proof (queue_bound s L1 HJ HQ) as QB.
-  destruct HJ as (J1 & J2 & J3 & J4 & J5 & J6 & J7 & J8).
+  destruct HJ as (J1 & J2 & J3 & J4 & J5 & J6 & J7 & J8 & J9 & J10).
   destruct HD as (D1 & D2 & D3 & D4 & D5 & D6 & D7).
   destruct HQ as (Q1 & Q2 & Q3 & Q4 & Q4b & Q5 & Q6 & Q7).
-  destruct s as [B bud [sq0 qtr0 cur0 tok0 sp0 batch0 wire0 dropped0]
+  destruct s as [B bud [sq0 qtr0 cur0 tok0 sp0 batch0 wire0 dropped0 infl0]
                  [tp0 sbusy0 closed0 pstop0 sldead0 rdead0 timedout0 gaveup0 enq_clean0 drain_clean0]].
   unfold stopped_end. xsimp. clear D7 J5 J6 J7 J8 ST.
   destruct tp0; try congruence.
@@ -450,9 +455,9 @@ Proof.
   destruct HI as [<-|HI]; [reflexivity|apply IH; assumption].
 Qed.
 
-Lemma good_of_side s : side_ok s = true -> timedout (k s) = false -> good (k s).
+Lemma good_of_side s : J s -> side_ok s = true -> timedout (k s) = false -> good (k s).
 Proof.
-  unfold side_ok, good. intros H T. apply andb_true_iff in H. destruct H as [H H3].
+  unfold side_ok, good. intros (_ & _ & _ & _ & _ & _ & _ & _ & _ & DC) H T.
   apply andb_true_iff in H. destruct H as [H1 H2]. apply negb_true_iff in H1. auto.
 Qed.
 
